@@ -911,16 +911,72 @@ fn word(data: &[u8], i: usize) -> U256 {
 }
 
 /// The precompile set used by the generators.
+/// Per-invocation log of facade calls made by the test precompiles: (static context?, list of
+/// (operation: 0 balance, 1 sload, 2 set_balance, 3 sstore; result: 0 ok, 1 halt, 2 fatal)).
+pub static FACADE_LOG: std::sync::Mutex<Vec<(bool, Vec<(u8, u8)>)>> = std::sync::Mutex::new(Vec::new());
+
+/// Forwards to the real facade and records what each call returned.
+struct Probe<'a, 'b> {
+    input: &'a mut grevm::ParallelPrecompileInput<'b>,
+    rec: Vec<(u8, u8)>,
+    is_static: bool,
+}
+
+impl<'a, 'b> Probe<'a, 'b> {
+    fn new(input: &'a mut grevm::ParallelPrecompileInput<'b>) -> Self {
+        let is_static = input.is_static();
+        Self { input, rec: Vec::new(), is_static }
+    }
+    fn note<T>(&mut self, op: u8, r: &Result<T, ParallelPrecompileError>) {
+        let k = match r {
+            Ok(_) => 0,
+            Err(ParallelPrecompileError::Halt(_)) => 1,
+            Err(ParallelPrecompileError::Fatal(_)) => 2,
+        };
+        self.rec.push((op, k));
+    }
+    fn balance(&mut self, a: Address) -> Result<U256, ParallelPrecompileError> {
+        let r = self.input.state().balance(a).map(|l| l.data);
+        self.note(0, &r);
+        r
+    }
+    fn sload(&mut self, a: Address, k: U256) -> Result<U256, ParallelPrecompileError> {
+        let r = self.input.state().sload(a, k).map(|l| l.data);
+        self.note(1, &r);
+        r
+    }
+    fn set_balance(&mut self, a: Address, v: U256) -> Result<(), ParallelPrecompileError> {
+        let r = self.input.state().set_balance(a, v).map(|_| ());
+        self.note(2, &r);
+        r
+    }
+    fn sstore(&mut self, a: Address, k: U256, v: U256) -> Result<(), ParallelPrecompileError> {
+        let r = self.input.state().sstore(a, k, v).map(|_| ());
+        self.note(3, &r);
+        r
+    }
+}
+
+impl Drop for Probe<'_, '_> {
+    fn drop(&mut self) {
+        let mut log = FACADE_LOG.lock().unwrap();
+        if log.len() < 200_000 {
+            log.push((self.is_static, std::mem::take(&mut self.rec)));
+        }
+    }
+}
+
 pub fn standard_precompiles() -> Vec<(Address, DynParallelPrecompile)> {
     let ok = |reservoir: u64, gas: u64| Ok(PrecompileOutput::new(gas, Bytes::new(), reservoir));
     vec![
         // 0: holder[k+1] := holder[k] + 1  (k = first calldata word mod 4); read-your-writes
         (precompile_addr(0), DynParallelPrecompile::new(PrecompileId::Custom("rw".into()), move |input| {
-            let k = word(input.data(), 0) % U256::from(4u64);
-            let r = input.reservoir();
-            let v = input.state().sload(holder(), k)?.data;
-            input.state().sstore(holder(), (k + U256::from(1u64)) % U256::from(4u64), v + U256::from(1u64))?;
-            let again = input.state().sload(holder(), (k + U256::from(1u64)) % U256::from(4u64))?.data;
+            let mut st = Probe::new(input);
+            let k = word(st.input.data(), 0) % U256::from(4u64);
+            let r = st.input.reservoir();
+            let v = st.sload(holder(), k)?;
+            st.sstore(holder(), (k + U256::from(1u64)) % U256::from(4u64), v + U256::from(1u64))?;
+            let again = st.sload(holder(), (k + U256::from(1u64)) % U256::from(4u64))?;
             if again != v + U256::from(1u64) {
                 return Err(ParallelPrecompileError::Fatal(PrecompileError::Fatal("read-your-writes violated".into())));
             }
@@ -928,46 +984,62 @@ pub fn standard_precompiles() -> Vec<(Address, DynParallelPrecompile)> {
         })),
         // 1: move one wei of balance bookkeeping: balance(holder) -> set_balance(caller-derived account)
         (precompile_addr(1), DynParallelPrecompile::new(PrecompileId::Custom("bal".into()), move |input| {
-            let r = input.reservoir();
-            let b = input.state().balance(holder())?.data;
+            let mut st = Probe::new(input);
+            let r = st.input.reservoir();
+            let b = st.balance(holder())?;
             let target = contract(41);
-            let t = input.state().balance(target)?.data;
-            input.state().set_balance(target, t + (b % U256::from(7u64)) + U256::from(1u64))?;
+            let t = st.balance(target)?;
+            st.set_balance(target, t + (b % U256::from(7u64)) + U256::from(1u64))?;
             ok(r, 50)
         })),
         // 2: tries to write even in a static context and ignores the refusal
         (precompile_addr(2), DynParallelPrecompile::new(PrecompileId::Custom("static-write".into()), move |input| {
-            let r = input.reservoir();
-            let _ = input.state().sstore(holder(), U256::from(9u64), U256::from(1u64));
-            let _ = input.state().set_balance(contract(41), U256::from(5u64));
+            let mut st = Probe::new(input);
+            let r = st.input.reservoir();
+            let _ = st.sstore(holder(), U256::from(9u64), U256::from(1u64));
+            let _ = st.set_balance(contract(41), U256::from(5u64));
             ok(r, 10)
         })),
         // 3: halts
         (precompile_addr(3), DynParallelPrecompile::new(PrecompileId::Custom("halt".into()), move |input| {
-            let _ = input.state().sstore(holder(), U256::from(8u64), U256::from(1u64));
+            let mut st = Probe::new(input);
+            let _ = st.sstore(holder(), U256::from(8u64), U256::from(1u64));
             Err(ParallelPrecompileError::Halt(PrecompileHalt::other_static("halt requested")))
         })),
         // 4: reads the beneficiary balance through the facade and records it
         (precompile_addr(4), DynParallelPrecompile::new(PrecompileId::Custom("coinbase-reader".into()), move |input| {
-            let r = input.reservoir();
-            let b = input.state().balance(coinbase())?.data;
-            input.state().sstore(holder(), U256::from(5u64), b)?;
+            let mut st = Probe::new(input);
+            let r = st.input.reservoir();
+            let b = st.balance(coinbase())?;
+            st.sstore(holder(), U256::from(5u64), b)?;
             ok(r, 30)
         })),
         // 5: writer for the stale-fatal witness: holder[0] := 42
         (precompile_addr(5), DynParallelPrecompile::new(PrecompileId::Custom("w42".into()), move |input| {
-            let r = input.reservoir();
-            input.state().sstore(holder(), U256::ZERO, U256::from(42u64))?;
+            let mut st = Probe::new(input);
+            let r = st.input.reservoir();
+            st.sstore(holder(), U256::ZERO, U256::from(42u64))?;
             ok(r, 10)
         })),
         // 6: fatal iff holder[0] still has its block-start value 7 (state-dependent fatal error)
         (precompile_addr(6), DynParallelPrecompile::new(PrecompileId::Custom("fatal-if-7".into()), move |input| {
-            let r = input.reservoir();
-            let v = input.state().sload(holder(), U256::ZERO)?.data;
+            let mut st = Probe::new(input);
+            let r = st.input.reservoir();
+            let v = st.sload(holder(), U256::ZERO)?;
             if v == U256::from(7u64) {
                 return Err(ParallelPrecompileError::Fatal(PrecompileError::Fatal("fatal: observed the stale value 7".into())));
             }
             ok(r, 10)
+        })),
+        // 7: reads the balance of an account that is still cold in this transaction through the
+        // facade and records it; callers read the same account again afterwards (both reads must
+        // see one version, and the facade read must be validated like an opcode read)
+        (precompile_addr(7), DynParallelPrecompile::new(PrecompileId::Custom("balance-probe".into()), move |input| {
+            let mut st = Probe::new(input);
+            let r = st.input.reservoir();
+            let b = st.balance(contract(41))?;
+            st.sstore(holder(), U256::from(6u64), b)?;
+            ok(r, 30)
         })),
     ]
 }
@@ -978,6 +1050,16 @@ fn precompile_builder(rng: &mut Rng, spec: SpecId, n_eoas: usize) -> Builder {
     b.db.insert_contract(holder(), vec![0x00], U256::from(1000u64), &[(0, 7), (1, 1), (2, 2)]);
     b.db.insert_eoa(contract(41), U256::from(3u64), 0);
     b.precompiles = standard_precompiles();
+    // facade balance read of a cold account, then the opcode reads the same account
+    b.db.insert_contract(
+        contract(46),
+        asm::assemble(&[
+            Stmt::Call { kind: CallKind::Call, to: addr(precompile_addr(7)), value: c(0), arg: None, result_slot: Some(0), gas: Some(60_000) },
+            Stmt::Sstore(c(1), Expr::Balance(Box::new(addr(contract(41))))),
+        ]),
+        U256::ZERO,
+        &[],
+    );
     // nested caller: calls precompile 0 with the first calldata word, then writes its own slot
     b.db.insert_contract(
         contract(42),
@@ -1023,7 +1105,7 @@ pub fn gen_precompile(rng: &mut Rng, spec: SpecId, n_txs: usize) -> Block {
     let mut b = precompile_builder(rng, spec, n_eoas);
     for _ in 0..n_txs {
         let from = eoa(rng.below(n_eoas));
-        match rng.below(14) {
+        match rng.below(16) {
             0..=2 => {
                 let w = rng.below(4) as u64;
                 b.call(rng, from, precompile_addr(0), &[w], "precompile-rw-direct");
@@ -1034,6 +1116,9 @@ pub fn gen_precompile(rng: &mut Rng, spec: SpecId, n_txs: usize) -> Block {
             12 => {
                 // fatal unless an earlier transaction of the block wrote 42
                 b.call(rng, from, precompile_addr(6), &[], "precompile-fatal-if-7");
+            }
+            14 | 15 => {
+                b.call(rng, from, contract(46), &[], "facade-balance-then-opcode-balance");
             }
             13 => {
                 // an invalid transaction in the middle of the block: ordered commit rejects it and
